@@ -227,12 +227,12 @@ class CallbackMonitor:
         self._undo = []
 
 
-def build_problem(case, algo, params, nagents, replication_capacity=1000):
+def build_problem(case, algo, params, nagents, replication_capacity=1000, cost_style="dict"):
     from importlib import import_module
     from pydcop.algorithms import AlgorithmDef, load_algorithm_module
     from pydcop.dcop.objects import AgentDef
 
-    dcop = gen.build_dcop(case)
+    dcop = gen.build_dcop(case, cost_style)
     agents = [AgentDef("a%d" % i, capacity=replication_capacity) for i in range(nagents)]
     dcop.add_agents(agents)
     m = load_algorithm_module(algo)
